@@ -71,7 +71,10 @@ def atoms_engine(F):
             return [(st, Bool(("sym", "skip(%s,%s)" % (name_of(eng_, st, args[0]), name_of(eng_, st, args[1])))))]
         if p.endswith("cmp::PartialOrd::lt") or p.endswith("cmp::PartialOrd::gt") or p.endswith("cmp::PartialOrd::le") or p.endswith("cmp::PartialOrd::ge"):
             if f.get("self_ty") is not None and eng_.T.t(f["self_ty"]).get("path") == "dlt::LogLevel":
-                return [(st, Bool(("sym", "%s(%s,%s)" % (p.split("::")[-1], name_of(eng_, st, args[0]), name_of(eng_, st, args[1])))))]
+                op, a0, a1 = p.split("::")[-1], name_of(eng_, st, args[0]), name_of(eng_, st, args[1])
+                if op in ("gt", "ge"):  # canonical form: a > b is b < a
+                    op, a0, a1 = {"gt": "lt", "ge": "le"}[op], a1, a0
+                return [(st, Bool(("sym", "%s(%s,%s)" % (op, a0, a1))))]
         return None
 
     eng.on_call = on_call
@@ -257,6 +260,26 @@ def tab_f(ctx):
     R.floor("TAB-F.exit", 30)
 
 
+def order_eval(c, o, a, b):
+    """Truth of condition c when cmp(a, b) = o (-1, 0, 1); None outside the vocabulary lt/le over (a, b)."""
+    k = c[0]
+    if k == "const":
+        return bool(c[1])
+    if k == "not":
+        v = order_eval(c[1], o, a, b)
+        return None if v is None else not v
+    if k in ("and", "or"):
+        x, y = order_eval(c[1], o, a, b), order_eval(c[2], o, a, b)
+        if x is None or y is None:
+            return None
+        return (x and y) if k == "and" else (x or y)
+    if k == "sym":
+        tab = {"lt(%s,%s)" % (a, b): o < 0, "lt(%s,%s)" % (b, a): o > 0, "le(%s,%s)" % (a, b): o <= 0, "le(%s,%s)" % (b, a): o >= 0,
+               "eq(%s,%s)" % (a, b): o == 0, "eq(%s,%s)" % (b, a): o == 0, "ne(%s,%s)" % (a, b): o != 0, "ne(%s,%s)" % (b, a): o != 0}
+        return tab.get(c[1])
+    return None
+
+
 def tab_l(ctx):
     F, R = ctx.facts, ctx.report
     # severity order = declaration order (derived PartialOrd compares discriminants first)
@@ -299,7 +322,8 @@ def tab_l(ctx):
         elif lvl == "Invalid":
             continue  # outside the configuration space: the processed minimum is one of the six named levels
         elif mt == "Log":
-            ok = res is not None and res[0] == "sym" and res[1] == "lt(level,*self.message_type.Log.0)"
+            # semantic: under each of the three orderings of (minimum, message level) the result is "minimum < message"
+            ok = res is not None and all(order_eval(res, o, "level", "*self.message_type.Log.0") == (o < 0) for o in (-1, 0, 1))
             want = "minimum < message level (message less severe than the minimum)"
         else:
             ok = False
